@@ -18,6 +18,8 @@ from ..common import Check, Outcome, Snap, subscribe, subscribe2, bootstrap
 rs = bootstrap()
 import zstandard                                            # noqa: E402
 
+TARGETS = [131075, 131591, 131072, 65536, 32768, 16384, 8192, 4096, 262144]       # zstandard's recommended input/output sizes, powers of two
+
 CODECS = {
     'gzip': (rs.compression.z.compress, rs.compression.z.decompress),
     'zstd': (rs.compression.zstd.compress, rs.compression.zstd.decompress),
@@ -63,8 +65,8 @@ class C16(Check):
     ASSUMPTIONS = ['zlib / zstandard C libraries are trusted as codecs; the property is about rxsci\'s streaming wrappers',
                    'reference decoders: gzip.decompress and zstandard.ZstdDecompressor.stream_reader']
     ANCHORS = ['rxsci/compression/z.py', 'rxsci/compression/zstd.py']
-    REQUIRED_TAGS = ['gzip', 'zstd', 'empty-list', 'empty-chunk-in-input', 'over-one-buffer', 'rand', 'zeros', 'multi-MiB-compressible', 'over-4MiB']
-    REQUIRED_OBSERVED = ['truncations_checked', 'rechunkings_checked', 'reference_decodes']
+    REQUIRED_TAGS = ['gzip', 'zstd', 'empty-list', 'empty-chunk-in-input', 'over-one-buffer', 'rand', 'zeros', 'multi-MiB-compressible', 'over-4MiB', 'compressed-size-is-a-block-size']
+    REQUIRED_OBSERVED = ['truncations_checked', 'rechunkings_checked', 'reference_decodes', 'compressed_streams_of_exactly_a_block_size']
 
     _ops = {}
 
@@ -106,6 +108,21 @@ class C16(Check):
                 sizes = [rng.choice([1 << 20, (1 << 20) + 13, 3 << 19]) for _ in range(rng.randint(2, 4))]
                 kind = ('zeros', 'text')[(k // 24) % 2]
                 codec = ('gzip', 'zstd')[(k // 12) % 2]
+            if k % 20 == 10:
+                # the COMPRESSED stream is exactly T bytes long, T a buffer size a streaming wrapper may re-block on
+                # (zstd's recommended input / output sizes, powers of two) or a multiple: the last byte of the frame is
+                # then the last byte of a block
+                T = rng.choice(TARGETS) * rng.choice([1, 1, 2])
+                codec = ('gzip', 'zstd')[(k // 20) % 2]
+                dseed = rng.randrange(1 << 30)
+                n = self._payload_for_compressed_size(codec, T, dseed)
+                if n is not None:
+                    sizes, kind = [n], 'rand'
+                    yield {'codec': codec, 'data': {'kind': kind, 'sizes': sizes, 'dseed': dseed}, 'target': T,
+                           'rechunks': [{'mode': 'natural'}, {'mode': 'blob'}, {'mode': 'fixed', 'size': 65536}, {'mode': 'fixed', 'size': 1000},
+                                        {'mode': 'random', 'cseed': rng.randrange(1 << 30), 'empties': True}, {'mode': 'trailing-empty'}],
+                           'truncs': 'all', 'tseed': rng.randrange(1 << 30), 'tier': tier}
+                    continue
             rech = [{'mode': 'natural'}, {'mode': 'blob'}, {'mode': 'blob', 'empties': True},
                     {'mode': 'fixed', 'size': 1 if sum(sizes) < 5000 else 997},
                     {'mode': 'fixed', 'size': 7 if sum(sizes) < 20000 else 4096, 'empties': True},
@@ -114,6 +131,22 @@ class C16(Check):
                     {'mode': 'trailing-empty'}]
             yield {'codec': codec, 'data': {'kind': kind, 'sizes': sizes, 'dseed': rng.randrange(1 << 30)},
                    'rechunks': rech, 'truncs': 'all', 'tseed': rng.randrange(1 << 30), 'tier': tier}
+
+    def _payload_for_compressed_size(self, codec, T, dseed):
+        """-> n such that rxsci's own compress() turns the n incompressible bytes of this seed into exactly T bytes"""
+        n = max(1, T - 30)
+        for _ in range(8):
+            data = random.Random(dseed).randbytes(n)
+            c = subscribe(rx.from_([data]).pipe(CODECS[codec][0]()), Snap())
+            if c.err is not None or not c.done:
+                return None
+            got = sum(len(x) for x in c.out)
+            if got == T:
+                return n
+            n += T - got
+            if n < 1:
+                return None
+        return None
 
     def _rechunk(self, comp, natural, r):
         mode = r['mode']
@@ -151,6 +184,8 @@ class C16(Check):
             out.tags.append('empty-chunk-in-input')
         if len(data) > 131072:
             out.tags.append('over-one-buffer')
+        if case.get('target'):
+            out.tags.append('compressed-size-is-a-block-size')
         if len(data) > (4 << 20):
             out.tags.append('over-4MiB')
         if len(data) > (2 << 20) and case['data']['kind'] in ('zeros', 'text'):
@@ -164,6 +199,8 @@ class C16(Check):
             return out.fail('compress-emitted-non-bytes', types=[type(x).__name__ for x in c.out])
         comp = b''.join(c.out)
         out.observed['compressed_bytes'] += len(comp)
+        if case.get('target') and len(comp) == case['target']:
+            out.observed['compressed_streams_of_exactly_a_block_size'] += 1
         # standalone validity
         try:
             ref = reference_decode(codec, comp)
@@ -200,6 +237,14 @@ class C16(Check):
             if got != data:
                 out.fail('decompress-content-differs', rechunk=r, got_len=len(got), want_len=len(data),
                          first_diff=next((i for i, (a, b) in enumerate(zip(got, data)) if a != b), min(len(got), len(data))))
+        if len(data) < 8192 and not out.failures:
+            from ..progs import twin_subscriptions
+            t = twin_subscriptions(lambda src: src.pipe(decomp_op()), list(c.out), out, 'decompress', lambda xs: b''.join(xs))
+            if t is not None and t != data:
+                out.fail('decompress-differs-with-two-live-subscribers', got_len=len(t), want_len=len(data))
+            t = twin_subscriptions(lambda src: src.pipe(comp_op()), chunks, out, 'compress', lambda xs: reference_decode(codec, b''.join(xs)))
+            if t is not None and t != data:
+                out.fail('compress-differs-with-two-live-subscribers', got_len=len(t), want_len=len(data))
         # truncations
         truncs = case['truncs']
         if truncs == 'all':
